@@ -200,7 +200,7 @@ Qed.
 
 Lemma xor_bytes_length a b : length a = length b -> length (xor_bytes a b) = length a.
 Proof.
-  intro H. unfold xor_bytes. rewrite map_length, combine_length, <- H. apply Nat.min_id.
+  intro H. unfold xor_bytes. rewrite map_length, combine_length. lia.
 Qed.
 
 (* leading zero octets do not change the CRC (zero initial value) *)
